@@ -6,6 +6,10 @@ import gc, glob, json, os, signal, sys, tempfile, time, warnings
 import loky.backend.resource_tracker as rt
 from loky.backend import get_context
 
+# a tracked operation at import time of the main module: with start method loky_init_main every member re-imports this module
+# while it is being prepared, and must already be talking to the tree's tracker then
+_MODULE_LEVEL_LOCK = get_context("loky").Lock()
+
 def report(d, tag, extra=None):
     info = {"pid": os.getpid(), "tag": tag, "tracker_pid": rt._resource_tracker._pid, "tracker_fd": rt._resource_tracker._fd}
     info.update(extra or {})
@@ -111,6 +115,19 @@ if mode == "heal":
     print(json.dumps(out)); sys.exit(0)
 tpids = sorted({m["tracker_pid"] for m in ms.values()})
 out["tracker_pids"] = tpids
+def tracker_processes():
+    me = os.getpgid(0); found = []
+    for x in os.listdir("/proc"):
+        if x.isdigit():
+            try:
+                cmd = open(f"/proc/{x}/cmdline").read()
+                st = open(f"/proc/{x}/stat").read(); f = st[st.rindex(")") + 2:].split()
+                if "loky.backend.resource_tracker" in cmd and int(f[2]) == me and f[0] != "Z":
+                    found.append(int(x))
+            except (OSError, ValueError):
+                pass
+    return sorted(found)
+out["tracker_processes_in_tree"] = tracker_processes()
 tp = tpids[0] if tpids else None
 names = [n for m in ms.values() for n in m.get("sem_names", [])]
 files = [m["file"] for m in ms.values() if "file" in m]
